@@ -37,7 +37,7 @@ def main():
         for p in props:
             t0 = time.time()
             r = subprocess.run([os.path.join(VERIF, "check"), p, tier], capture_output=True, text=True,
-                               env=dict(os.environ, OL_REPO=scratch), cwd=VERIF)
+                               env=dict(os.environ, OL_REPO=scratch, OLVERIF_OUT=os.path.join(scratch, ".verif-out")), cwd=VERIF)
             res[p] = {0: "MISSED", 1: "caught", 2: "HARNESS-ERROR"}.get(r.returncode, r.returncode)
             res[p] += " (%.0fs)" % (time.time() - t0)
             if r.returncode == 2:
